@@ -435,3 +435,33 @@ def parse_dump(path: Path, var: str = "s"):
             if m:
                 out.append(parse_tla_value(m.group(1)))
     return out
+
+
+def parse_dump_states(path: Path):
+    """All states of a TLC -dump file as dicts var -> parsed value (values may span several lines)."""
+    states, cur, var, buf = [], None, None, []
+
+    def flush():
+        nonlocal var, buf
+        if cur is not None and var is not None:
+            cur[var] = parse_tla_value("\n".join(buf))
+        var, buf = None, []
+    with open(path) as f:
+        for ln in f:
+            ln = ln.rstrip("\n")
+            if ln.startswith("State "):
+                flush()
+                if cur is not None:
+                    states.append(cur)
+                cur = {}
+                continue
+            m = re.match(r"^(?:/\\ )?([A-Za-z_][A-Za-z_0-9]*) = (.*)$", ln)
+            if m and cur is not None and not ln.startswith(" "):
+                flush()
+                var, buf = m.group(1), [m.group(2)]
+            elif var is not None and ln.strip():
+                buf.append(ln)
+    flush()
+    if cur:
+        states.append(cur)
+    return states
